@@ -44,6 +44,11 @@ type checkRunner struct {
 	checkedRcptsPerCheck map[module.CheckState]map[string]struct{}
 	checkedRcptsLock     sync.Mutex
 
+	// States that saw the message body already. A check referenced from
+	// multiple blocks (e.g. globally and in a destination block) should
+	// get the body only once.
+	bodyChecked map[module.CheckState]struct{}
+
 	resolver      dns.Resolver
 	doDMARC       bool
 	didDMARCFetch bool
@@ -60,6 +65,7 @@ func newCheckRunner(msgMeta *module.MsgMetadata, log log.Logger, r dns.Resolver)
 	return &checkRunner{
 		msgMeta:              msgMeta,
 		checkedRcptsPerCheck: map[module.CheckState]map[string]struct{}{},
+		bodyChecked:          map[module.CheckState]struct{}{},
 		log:                  log,
 		resolver:             r,
 		dmarcVerify:          dmarc.NewVerifier(r),
@@ -282,7 +288,18 @@ func (cr *checkRunner) checkBody(ctx context.Context, checks []module.Check, hea
 		cr.didDMARCFetch = true
 	}
 
-	return cr.runAndMergeResults(states, func(s module.CheckState) module.CheckResult {
+	// Avoid calling CheckBody for the same check multiple times, even if
+	// requested.
+	pending := make([]module.CheckState, 0, len(states))
+	for _, state := range states {
+		if _, ok := cr.bodyChecked[state]; ok {
+			continue
+		}
+		cr.bodyChecked[state] = struct{}{}
+		pending = append(pending, state)
+	}
+
+	return cr.runAndMergeResults(pending, func(s module.CheckState) module.CheckResult {
 		res := s.CheckBody(ctx, header, body)
 		return res
 	})
